@@ -46,7 +46,7 @@ func drawCount(t *rapid.T, p int) int {
 }
 
 func genC12(t *rapid.T) C12Case {
-	c := C12Case{PageSize: rapid.IntRange(1, 40).Draw(t, "pagesize")}
+	c := C12Case{PageSize: rapid.IntRange(1, report.Scale(40, 120)).Draw(t, "pagesize")}
 	if rapid.Bool().Draw(t, "smallPage") {
 		c.PageSize = rapid.IntRange(1, 5).Draw(t, "pagesizeSmall")
 	}
